@@ -860,13 +860,13 @@ func (p *parser) parseForStatement() Node {
 	defer p.popScope()
 	p.advance() // advance past FOR token
 
+	var loopVar *Var
 	if p.cur.TokenType() == lexer.IDENT {
-		forNode.LoopVar = &Var{token: p.cur, Name: p.cur.Literal, T: NONE_TYPE}
-		if !p.validateVarDecl(forNode.LoopVar, p.cur, false /* allowUnderscore */) {
+		loopVar = &Var{token: p.cur, Name: p.cur.Literal, T: NONE_TYPE}
+		if !p.validateVarDecl(loopVar, p.cur, false /* allowUnderscore */) {
 			p.advancePastNL()
 			return nil
 		}
-		p.scope.set(forNode.LoopVar.Name, forNode.LoopVar)
 		p.advance() // advance past loopVarName
 		p.assertToken(lexer.DECLARE)
 		p.advance() // advance past :=
@@ -878,6 +878,13 @@ func (p *parser) parseForStatement() Node {
 	tok := p.cur
 	p.advance() // advance past range
 	nodes := p.parseExprList()
+	if loopVar != nil {
+		// The loop variable is in scope in the loop body only, the range
+		// operands are evaluated before it exists: `for x := range x`
+		// iterates over the x of the enclosing scope.
+		p.scope.set(loopVar.Name, loopVar)
+		forNode.LoopVar = loopVar
+	}
 	if len(nodes) == 0 {
 		p.appendError("range cannot be empty")
 		return nil // previous error
